@@ -36,6 +36,8 @@
 #include <set>
 #include <type_traits>
 
+#include <unordered_map>
+
 #include "c13_common.hpp"
 
 namespace c13 {
@@ -82,8 +84,9 @@ struct RadixSys {
     typedef RElem<K> Elem;
     typedef tlx::RadixHeap<Elem, RKeyExtract<K>, K, Radix> Heap;
 
-    std::vector<K> alpha;
+    std::vector<K> alpha;  // sorted; the last entry is always the largest key of the type
     bool below_top;
+    bool use_max = true;   // whether the BFS offers the largest key (see max_family())
     RadixSys() {
         typedef std::numeric_limits<K> L;
         K R = (K)Radix;
@@ -102,6 +105,7 @@ struct RadixSys {
         std::unique_ptr<Heap> heap;
         std::multiset<K> model;
         bool has_floor = false;
+        size_t steps = 0;
         K floor = 0;
         State() {
             g_ctx = &ctx;
@@ -114,23 +118,36 @@ struct RadixSys {
         }
     };
 
-    std::string name() { return vh::fmt("RadixHeap<%s,r%u>", RKeyName<K>::nm(), Radix); }
+    std::string name_;
+    const std::string& name() {
+        if (name_.empty()) name_ = vh::fmt("RadixHeap<%s,r%u>", RKeyName<K>::nm(), Radix);
+        return name_;
+    }
     std::unique_ptr<State> fresh() { return std::unique_ptr<State>(new State()); }
 
     enum Kind { PUSH = 1, EMPLACE, KEYFIRST, TOP, POP, SWAP, CLEAR };
     static uint32_t enc(int k, unsigned arg = 0) { return ((uint32_t)k << 12) | arg; }
     static std::string kstr(K k) { return std::is_signed<K>::value ? std::to_string((long long)k) : std::to_string((unsigned long long)k); }
 
+    std::unordered_map<uint32_t, std::string> name_cache_;
     std::string op_name(uint32_t op) {
+        auto it = name_cache_.find(op);
+        if (it != name_cache_.end()) return it->second;
+        return name_cache_[op] = op_name_uncached(op);
+    }
+    // in below_top mode (the property's literal monotonicity condition, see the header comment) every label carries a
+    // distinct prefix so that the known finding about top() can be told from everything else
+    std::string pfx() const { return below_top ? "RadixHeap@insert-below-last-top." : "RadixHeap."; }
+    std::string op_name_uncached(uint32_t op) {
         unsigned k = op >> 12, a = op & 4095;
         switch (k) {
-        case PUSH: return "RadixHeap.push(" + kstr(alpha[a % alpha.size()]) + ")";
-        case EMPLACE: return "RadixHeap.emplace(" + kstr(alpha[a % alpha.size()]) + ")";
-        case KEYFIRST: return "RadixHeap.emplace_keyfirst(" + kstr(alpha[a % alpha.size()]) + ")";
-        case TOP: return "RadixHeap.top()";
-        case POP: return "RadixHeap.pop()";
-        case SWAP: return "RadixHeap.swap_top_bucket()";
-        case CLEAR: return "RadixHeap.clear()";
+        case PUSH: return pfx() + "push(" + kstr(alpha[a % alpha.size()]) + ")";
+        case EMPLACE: return pfx() + "emplace(" + kstr(alpha[a % alpha.size()]) + ")";
+        case KEYFIRST: return pfx() + "emplace_keyfirst(" + kstr(alpha[a % alpha.size()]) + ")";
+        case TOP: return pfx() + "top()";
+        case POP: return pfx() + "pop()";
+        case SWAP: return pfx() + "swap_top_bucket()";
+        case CLEAR: return pfx() + "clear()";
         }
         return "RadixHeap.?";
     }
@@ -138,8 +155,10 @@ struct RadixSys {
     std::vector<uint32_t> ops(const State& s) {
         std::vector<uint32_t> r;
         for (int kind = PUSH; kind <= KEYFIRST; ++kind)
-            for (size_t i = 0; i < alpha.size(); ++i)
+            for (size_t i = 0; i < alpha.size(); ++i) {
+                if (!use_max && i + 1 == alpha.size()) continue;
                 if (!s.has_floor || alpha[i] >= s.floor) r.push_back(enc(kind, (unsigned)i));
+            }
         if (!s.model.empty()) {
             r.push_back(enc(TOP));
             r.push_back(enc(POP));
@@ -157,14 +176,29 @@ struct RadixSys {
 
     void check_queries(State& s) {
         const Heap& h = *s.heap;
-        if (h.size() != s.model.size()) vh::fail_here("size", vh::fmt("size()=%zu, model %s", h.size(), model_str(s).c_str()));
-        if (h.empty() != s.model.empty()) vh::fail_here("empty", vh::fmt("empty()=%d, model %s", (int)h.empty(), model_str(s).c_str()));
+        if (h.size() != s.model.size()) {
+            vh::fail_here("size", vh::fmt("size()=%zu, model %s", h.size(), model_str(s).c_str()));
+            return;
+        }
+        if (h.empty() != s.model.empty()) {
+            vh::fail_here("empty", vh::fmt("empty()=%d, model %s", (int)h.empty(), model_str(s).c_str()));
+            return;
+        }
         if (!s.model.empty() && !h.empty()) {
             K p = h.peak_top_key();
-            if (p != *s.model.begin()) vh::fail_here("peak_top_key", vh::fmt("peak_top_key()=%s, model %s", kstr(p).c_str(), model_str(s).c_str()));
+            if (p != *s.model.begin()) {
+                vh::fail_here("peak_top_key", vh::fmt("peak_top_key()=%s, model %s", kstr(p).c_str(), model_str(s).c_str()));
+                return;
+            }
         }
-        if (s.ctx.misuse) vh::fail_here("element-lifetime", s.ctx.first_misuse);
-        if (s.ctx.live != (long)s.model.size()) vh::fail_here("live-elements", vh::fmt("%ld entries alive, model holds %zu", s.ctx.live, s.model.size()));
+        if (s.ctx.misuse) {
+            vh::fail_here("element-lifetime", s.ctx.first_misuse);
+            return;
+        }
+        if (s.ctx.live != (long)s.model.size()) {
+            vh::fail_here("live-elements", vh::fmt("%ld entries alive, model holds %zu", s.ctx.live, s.model.size()));
+            return;
+        }
     }
 
     void apply(State& s, uint32_t op) {
@@ -177,6 +211,14 @@ struct RadixSys {
         case KEYFIRST: {
             K k = alpha[a % alpha.size()];
             size_t want = const_cast<const Heap&>(h).get_bucket_key(k), idx;
+            if (want >= Heap::num_buckets) {
+                // the insertion would index buckets_data_/mins_ out of bounds (wild access whose ASan kind depends on what
+                // the index happens to hit): report it deterministically and do not perform the call
+                // (one signature for the three insertion calls: the defect is in the shared bucket computation)
+                vh::fail("RadixHeap.insert/bucket-index-out-of-range", vh::cur_replay(), vh::fmt("get_bucket_key(%s)=%zu with insertion limit rank %llu, but there are only %zu buckets", kstr(k).c_str(),
+                                                                   want, (unsigned long long)h.insertion_limit_, (size_t)Heap::num_buckets));
+                return;
+            }
             if (kind == PUSH) {
                 Elem e(k, rtag(k));
                 idx = h.push(e);
@@ -234,7 +276,7 @@ struct RadixSys {
             s.floor = 0;
             break;
         }
-        check_queries(s);
+        if (is_last_op_of_published_history(++s.steps)) check_queries(s);
     }
 
     void observe(State& s) {
@@ -323,6 +365,55 @@ struct RadixSys {
         return c;
     }
 
+    // Family "max" (asserts-on builds).  radix_heap.hpp uses numeric_limits<rank>::max() both as the rank of the largest
+    // key and as the "bucket empty" marker in mins_[]; reorganize_() contains a debug assertion
+    // `key < mins_[first_non_empty + 1]` that fires when a bucket holding the largest key is redistributed while the next
+    // bucket is empty.  That crashes *systematically* for histories containing the largest key, which would run the BFS
+    // into the engine's 40-crash cap.  So, in a build with asserts, a fixed family of short histories with the largest key
+    // (every x, then max, in both insertion orders, drained by pop / top+pop / swap_top_bucket; every x <= y, then max,
+    // drained by pop) is run first, each history in its own child.  If any of them crashes, the crashes are reported and
+    // the BFS of this build runs over the alphabet without the largest key; the NDEBUG build of the same harness
+    // (second run of checks/C13.py) always runs the BFS over the full alphabet, which also classifies an assertion as
+    // "assert-only" (all value oracles hold under NDEBUG) or not.  If the family is clean, the BFS uses the full alphabet.
+    int max_family() {
+        int crashes = 0;
+        unsigned mx = (unsigned)alpha.size() - 1;
+        std::vector<std::vector<uint32_t>> fam;
+        for (unsigned x = 0; x < mx; ++x)
+            for (int order = 0; order < 2; ++order) {
+                std::vector<uint32_t> in = order ? std::vector<uint32_t>{enc(PUSH, mx), enc(EMPLACE, x)} : std::vector<uint32_t>{enc(PUSH, x), enc(KEYFIRST, mx)};
+                std::vector<uint32_t> a = in, b = in, c = in;
+                a.insert(a.end(), {enc(POP), enc(POP)});
+                b.insert(b.end(), {enc(TOP), enc(POP), enc(TOP), enc(POP)});
+                c.insert(c.end(), {enc(SWAP), enc(SWAP)});
+                fam.push_back(a);
+                fam.push_back(b);
+                fam.push_back(c);
+            }
+        for (unsigned x = 0; x < mx; ++x)
+            for (unsigned y = x; y < mx; ++y) fam.push_back({enc(PUSH, x), enc(PUSH, y), enc(PUSH, mx), enc(POP), enc(POP), enc(POP)});
+        for (auto& h : fam) {
+            bool ok = vh::run_child([&] {
+                std::string rp = name() + "|" + vhist::hist_str(h);
+                auto st = fresh();
+                for (uint32_t op : h) {
+                    unsigned long long fails = vh::shm()->stat_val[vh::stat_slot("failing_cases", false)];
+                    if ((op >> 12) >= TOP && (op >> 12) <= SWAP && st->model.empty()) break;  // precondition: non-empty
+                    vh::at(vhist::sig_label(op_name(op)).c_str(), rp);
+                    st->steps = h.size();  // evaluate the post-op oracles after every op of these histories
+                    apply(*st, op);
+                    if (vh::shm()->stat_val[vh::stat_slot("failing_cases", false)] != fails) break;  // a failing state is terminal
+                }
+                vh::at_op("destroy");
+                st.reset();
+            });
+            if (!ok) crashes++;
+        }
+        family_histories = fam.size();
+        return crashes;
+    }
+    size_t family_histories = 0;
+
     // A systematically crashing instantiation would hit the engine's restart cap after 40 crashes and hide
     // everything else: first run every single-insertion history in its own child; if more than 3 of them crash,
     // the crashes are reported and the BFS of this configuration is skipped (with a CAP: not exhaustive).
@@ -352,8 +443,11 @@ struct RadixSys {
 };
 
 template <class K, unsigned Radix>
-void add_radix(std::vector<Config>& out, bool thorough, bool in_quick, double cost) {
+void add_radix(std::vector<Config>& out, bool thorough, bool in_quick) {
     if (!thorough && !in_quick) return;
+    // measured CPU seconds (shard balancing only); the 8/16-bit instantiations currently fail at the first insertion
+    double cost = sizeof(K) < 4 ? 5 : std::is_signed<K>::value ? (Radix == 2 ? 7 : Radix == 64 ? 45 : 32) : (Radix == 2 ? 4 : Radix == 64 ? 18 : 13);
+    if (!thorough) cost /= 8;
     auto sys = std::make_shared<RadixSys<K, Radix>>();
     vhist::Options opt;
     opt.max_depth = (int)vh::args().opt_int("depth", thorough ? 6 : 5);
@@ -361,7 +455,22 @@ void add_radix(std::vector<Config>& out, bool thorough, bool in_quick, double co
                            sys->name() + ": e.g. push(max) emplace(-1) top() emplace_keyfirst(0) pop() push(R) swap_top_bucket() clear() push(min) — "
                                          "every history of <= depth ops over the 11-key alphabet with keys >= the last top()/pop()/swap key");
     c.run = [sys, opt] {
-        if (sys->smoke()) vhist::run_config(*sys, opt);
+        if (!sys->smoke()) return;
+        long mk = vh::args().opt_int("maxkey", -1);  // -1 = automatic
+        int crashes = 0;
+#ifndef NDEBUG
+        if (mk < 0) {
+            crashes = sys->max_family();
+            sys->use_max = crashes == 0;
+            if (crashes)
+                vh::note(vh::fmt("%s: %d of %zu histories of the largest-key family crash in this asserts-on build (reported); its BFS runs without the "
+                                 "largest key, the NDEBUG build covers it", sys->name().c_str(), crashes, sys->family_histories));
+        }
+#endif
+        if (mk >= 0) sys->use_max = mk != 0;
+        vhist::run_config(*sys, opt);
+        vh::stat_add("largest_key_family_histories", (long long)sys->family_histories);
+        vh::stat_add("largest_key_family_crashes", crashes);
     };
     out.push_back(c);
 }
